@@ -1,4 +1,4 @@
-HOOK_COMMITS = ["37f15b8", "df87741", "8885e82", "f24b31a"]
+HOOK_COMMITS = ["37f15b8", "df87741", "8885e82", "f24b31a", "6c95543"]
 NOTES = ("Technique family: machine-checked proof in Coq 8.16.1. Every check regenerates coq/Gen from /repo, rebuilds the "
          "Coq development (full .vo), re-extracts the model, rebuilds the Go harness against /repo with -tags verif, and "
          "runs the correspondence + oracle pipeline. See DESIGN.md.")
